@@ -46,7 +46,9 @@ def tasks(tier, seed):
                 for sticky in (0, 1):
                     dd = dict(d, rm=rm)
                     ts.append(dict(kind='glue', name='glue/%s/neg%d/st%d' % (G.name_of(dd), neg, sticky), desc=dd, neg=neg, sticky=sticky))
-    for d in [dict(fam='MPFloat', pmax=3), dict(fam='MPFixed', nmin=-2), dict(fam='MPSFloat', pmax=3, emin=-1)]:
+    for d in [dict(fam='MPFloat', pmax=3), dict(fam='MPFixed', nmin=-2), dict(fam='MPSFloat', pmax=3, emin=-1),
+              # bounded families have their own round_params (IEEE / EFloat go through MPBFloatContext.round_params)
+              dict(fam='IEEE', es=3, nbits=6), dict(fam='MPBFloat', pmax=2, emin=-4, maxval=[0, 3, 3], ov='SATURATE'), dict(fam='MPBFixed', nmin=-2, maxval=[0, 3, 5], ov='SATURATE')]:
         for k in (1, 2):
             for rm in ('RNE', 'RTZ', 'RAZ'):
                 for neg in (0, 1):
